@@ -3,6 +3,7 @@ import Qx.Xml.Tree
 import Qx.Xml.Canon
 import Qx.Xml.Codec.Schema
 import Qx.Xml.Codec.Classes
+import Qx.Xml.Codec.Literals
 /-!
 Driver ops with prefix `codec-` of the C01/C02 driver (tier C, schema-driven codecs).
 Fields of an op are separated by single blanks (or TABs); trees use the canonical encoding of
@@ -199,9 +200,16 @@ mutual
         let t := if textFor.contains idx && present i (c + 3) then (pool[pick i (c + 4) pool.size]!).toList else []
         (.record [.opt (some idx), .str t], c + 5)
       else (.record [.opt none, .str []], c + 5)
-    | .child _ fs mode =>
+    | .child h fs mode =>
       if mode == .optional && !present i c then (.absent, c + 1)
-      else let r := genFs fs i (c + 1); (.record r.1, r.2)
+      else
+        let r := genFs fs i (c + 1)
+        -- canonical values of a guarded element: everything unset when the guard fields are
+        if guardOff mode fs r.1 then (.record (decFs h.ns nullNode fs), r.2) else (.record r.1, r.2)
+    | .strSet _ =>
+      let n := if present i c then 1 + pick i (c + 1) 4 else 0
+      let members := (List.range n).map fun k => (pool[pick i (c + 2 + k) pool.size]!).toList
+      (.list ((mkSet members).map Val.str), c + 7)
     | .many _ fs ne =>
       let n := if present i c || ne then 1 + pick i (c + 1) 3 else 0
       let r := genItems fs i (c + 2) n
@@ -253,6 +261,7 @@ mutual
     | .tagChild _ _ _ names skip _ _ _ => names ++ skip
     | .child h fs _ => h.tag :: tagsFs fs
     | .many h fs _ => h.tag :: tagsFs fs
+    | .strSet h => [h.tag]
     | _ => []
   partial def tagsFs : List Field → List Str
     | [] => []
@@ -281,6 +290,8 @@ def step (line : String) : Option String :=
   some <|
     if op == "codec-classes" then " ".intercalate (Classes.all.map (·.1))
     else if op == "codec-reset" then withClass cls fun _ => "ok"
+    else if op == "codec-names" then withClass cls fun S =>
+      "N " ++ " ".intercalate ((Literals.names S).map hexOf) ++ " NS " ++ " ".intercalate ((Literals.nss S).map hexOf)
     else if op == "codec-tags" then withClass cls fun S =>
       let ts := (tagsFs S.fields).eraseDups
       if ts.isEmpty then "-" else " ".intercalate (ts.map fun t => hexOf t)
